@@ -49,7 +49,7 @@ def pyvc_iter(it):
     return it
 
 
-def pyvc_for(it, body, carried=(), generic_ok=True):
+def pyvc_for(it, body, carried=(), generic_ok=True, stmt_calls=()):
     from .sym import have_ctx
     from .shim import OneShot
     if type(it) is OneShot:
@@ -72,7 +72,7 @@ def pyvc_for(it, body, carried=(), generic_ok=True):
             continue
         if not generic_ok:
             raise Unsupported("loop over an unbounded child list whose body has effects other than append/assignment")
-        r = _generic(seg, body, carried)
+        r = _generic(seg, body, carried, stmt_calls)
         if r is not None:
             return r
     return None
@@ -125,11 +125,21 @@ def _exists(gen, cond):
     return bool(n >= 1)
 
 
-def _generic(gen, body, carried):
+def _generic(gen, body, carried, stmt_calls=()):
     c = ctx()
     cells = _cells(body)
     snap = [(name, cell, _get(cell)) for name, cell in cells]
     lists = [(name, cell, v, _length(v)) for name, cell, v in snap if _length(v) is not None]
+    # call statements on plain names are admitted only if the name is an alias of a list's append
+    known = {name: v for name, cell, v in snap}
+    for fname in stmt_calls:
+        f = known.get(fname, _UNBOUND)
+        owner = getattr(f, "__self__", None)
+        if f is _UNBOUND or getattr(f, "__name__", "") != "append" or _length(owner) is None:
+            raise Unsupported(f"loop over an unbounded child list whose body calls `{fname}(...)` as a statement "
+                              f"(only an alias of list.append is within the subset)")
+        if not any(v is owner for _, _, v, _ in lists):
+            lists.append((f"<{fname}.__self__>", None, owner, _length(owner)))
     acc0 = {}
     for name, cell, v in snap:
         if name in carried and isi(v, (int, SInt)) and not isi(v, bool):
